@@ -559,7 +559,7 @@ impl RefWorld {
         self.tap_log.push(ev.clone());
         self.emit(id, ev)
       }
-      Op::MapToAny | Op::ObserveOnDefault | Op::SubscribeOnDefault | Op::MatDemat | Op::Timestamp | Op::RefCount | Op::ReplayConn
+      Op::MapToAny | Op::ObserveOnDefault | Op::SubscribeOnDefault | Op::MatDemat | Op::Timestamp | Op::RefCount | Op::ReplayConn | Op::Defer
       | Op::WindowFlat(_) | Op::GroupByParityFlat => self.emit(id, ev),
       Op::DematInBand(c, e) => match ev {
         // emit() of a terminal cancels the input
